@@ -132,7 +132,8 @@ def tap_cancel(fut, fid, tag, k=-1):
 
     fut.cancel = cancel
     if tag != "outer":
-        E.SCHED.track(fid, fut, ev="DelegateState", k=k, c=TAG_IDS.get(tag, 9))
+        c = int(tag[3:]) if tag.startswith("tap") and tag[3:].isdigit() else TAG_IDS.get(tag, 9)
+        E.SCHED.track(fid, fut, ev="DelegateState", k=k, c=c)
     return fut
 
 
